@@ -273,7 +273,12 @@ Proof.
     - rewrite chars_of_app, chars_of_digits by exact Hd. cbn [app exp_chars]. f_equal.
       change (11%N :: itoa (l - m)) with ([11%N] ++ itoa (l - m)). rewrite chars_of_app, (chars_of_digits _ I1). reflexivity.
     - intros c r E. exact (Hhd_digit ds c r _ Hd Hne E).
-    - apply (body_shape ds [] false); try assumption; try constructor; try tauto; try lia; try (split; assumption).
+    - apply (body_shape ds [] false).
+      + exact Hd.
+      + constructor.
+      + intros _; reflexivity.
+      + cbn [length]. lia.
+      + split; assumption.
     - rewrite app_nil_r. cbn [exp_value length]. rewrite I2. replace (l - m - Z.of_nat 0) with (l - m) by lia.
       apply dec_equiv_same. }
   destruct (Z.eqb_spec l (m + 2)) as [C2|C2].
@@ -283,9 +288,12 @@ Proof.
     - cbn [exp_chars app]. rewrite !app_nil_r. apply chars_of_digits.
       apply Forall_app; split; [exact Hd|]. repeat constructor; unfold digit; lia.
     - intros c r E. rewrite <- app_assoc in E. exact (Hhd_digit ds c r _ Hd Hne E).
-    - apply (body_shape (ds ++ [0%N; 0%N]) [] false None); try constructor; try tauto.
+    - apply (body_shape (ds ++ [0%N; 0%N]) [] false None).
       + apply Forall_app; split; [exact Hd|]. repeat constructor; unfold digit; lia.
+      + constructor.
+      + intros _; reflexivity.
       + rewrite app_length. cbn [length]. lia.
+      + exact I.
     - rewrite app_nil_r, dv_app. cbn [dv fold_left exp_value length].
       unfold dec_equiv. subst l. replace (0 - Z.of_nat 0) with 0 by lia.
       replace (m + 2 - m) with 2 by lia. cbn. lia. }
@@ -296,9 +304,12 @@ Proof.
     - cbn [exp_chars app]. rewrite !app_nil_r. apply chars_of_digits.
       apply Forall_app; split; [exact Hd|]. repeat constructor; unfold digit; lia.
     - intros c r E. rewrite <- app_assoc in E. exact (Hhd_digit ds c r _ Hd Hne E).
-    - apply (body_shape (ds ++ [0%N]) [] false None); try constructor; try tauto.
+    - apply (body_shape (ds ++ [0%N]) [] false None).
       + apply Forall_app; split; [exact Hd|]. repeat constructor; unfold digit; lia.
+      + constructor.
+      + intros _; reflexivity.
       + rewrite app_length. cbn [length]. lia.
+      + exact I.
     - rewrite app_nil_r, dv_app. cbn [dv fold_left exp_value length].
       unfold dec_equiv. subst l. replace (0 - Z.of_nat 0) with 0 by lia.
       replace (m + 1 - m) with 1 by lia. cbn. lia. }
@@ -307,7 +318,12 @@ Proof.
     - exact Hv.
     - cbn [exp_chars app]. rewrite app_nil_r. apply chars_of_digits. exact Hd.
     - intros c r E. exact (Hhd_digit ds c r _ Hd Hne E).
-    - apply (body_shape ds [] false None); try constructor; try tauto; try assumption. lia.
+    - apply (body_shape ds [] false None).
+      + exact Hd.
+      + constructor.
+      + intros _; reflexivity.
+      + cbn [length]. lia.
+      + exact I.
     - rewrite app_nil_r. cbn [exp_value length]. subst l.
       replace (0 - Z.of_nat 0) with (m - m) by lia. apply dec_equiv_same. }
   destruct (Z.ltb_spec 0 l) as [C5|C5].
@@ -326,7 +342,9 @@ Proof.
       rewrite chars_of_app, (chars_of_digits _ Hs). reflexivity.
     - intros c r E. eapply (Hhd_digit (firstn (Z.to_nat l) ds)); [exact Hf| |exact E].
       intros En. rewrite En in Hfl. cbn [length] in Hfl. lia.
-    - apply (body_shape (firstn (Z.to_nat l) ds) (skipn (Z.to_nat l) ds) true None); try assumption; try tauto.
+    - apply (body_shape (firstn (Z.to_nat l) ds) (skipn (Z.to_nat l) ds) true None).
+      + exact Hf.
+      + exact Hs.
       + discriminate.
       + lia.
       + exact I.
@@ -339,7 +357,12 @@ Proof.
     - cbn [exp_chars app]. rewrite app_nil_r.
       change (10%N :: ds) with ([10%N] ++ ds). rewrite chars_of_app, (chars_of_digits _ Hd). reflexivity.
     - intros c r E. cbn in E. inversion E. reflexivity.
-    - apply (body_shape [] ds true None); try constructor; try assumption; try tauto. discriminate.
+    - apply (body_shape [] ds true None).
+      + constructor.
+      + exact Hd.
+      + discriminate.
+      + cbn [length]. lia.
+      + exact I.
     - cbn [app exp_value]. subst l. fold m. replace (0 - m) with (0 - m) by lia. apply dec_equiv_same. }
   destruct (Z.eqb_spec l (-1)) as [C7|C7].
   { apply (Hcase ([10%N; 0%N] ++ ds) ([] ++ ([ch_dot] ++ (0%N :: ds)) ++ exp_chars None)
@@ -349,10 +372,12 @@ Proof.
       change (10%N :: 0%N :: ds) with ([10%N] ++ (0%N :: ds)). rewrite chars_of_app.
       rewrite (chars_of_digits (0%N :: ds)); [reflexivity|]. constructor; [unfold digit; lia|exact Hd].
     - intros c r E. cbn in E. inversion E. reflexivity.
-    - apply (body_shape [] (0%N :: ds) true None); try constructor; try assumption; try tauto.
-      + unfold digit; lia.
+    - apply (body_shape [] (0%N :: ds) true None).
+      + constructor.
+      + constructor; [unfold digit; lia|exact Hd].
       + discriminate.
       + cbn [length]. lia.
+      + exact I.
     - cbn [app exp_value length dv fold_left]. subst l. fold (dv 0 ds).
       replace (0 - Z.of_nat (S (length ds))) with (-1 - m) by lia. apply dec_equiv_same. }
   { (* digits E- exponent *)
@@ -363,7 +388,58 @@ Proof.
     - rewrite chars_of_app, chars_of_digits by exact Hd. cbn [app exp_chars]. f_equal.
       change (12%N :: itoa (- l + m)) with ([12%N] ++ itoa (- l + m)). rewrite chars_of_app, (chars_of_digits _ I1). reflexivity.
     - intros c r E. exact (Hhd_digit ds c r _ Hd Hne E).
-    - apply (body_shape ds [] false); try assumption; try constructor; try tauto; try lia; try (split; assumption).
+    - apply (body_shape ds [] false).
+      + exact Hd.
+      + constructor.
+      + intros _; reflexivity.
+      + cbn [length]. lia.
+      + split; assumption.
     - rewrite app_nil_r. cbn [exp_value length]. rewrite I2.
       replace (- (- l + m) - Z.of_nat 0) with (l - m) by lia. apply dec_equiv_same. }
+Qed.
+
+(* every byte of the layout is a byte: nibbles are below 16 *)
+Lemma pack_nibbles_bytes n : forall nibs,
+  (length nibs <= n)%nat -> Forall (fun x => (x < 16)%N) nibs ->
+  Forall (fun b => (b < 256)%N) (pack_nibbles nibs).
+Proof.
+  induction n as [|n IH]; intros nibs Hl Hv.
+  - destruct nibs; [|cbn [length] in Hl; lia]. cbn. repeat constructor.
+  - destruct nibs as [|a [|b r]]; cbn [pack_nibbles].
+    + repeat constructor.
+    + inversion Hv; subst. repeat constructor. lia.
+    + inversion Hv as [|? ? Ha Hv']; subst. inversion Hv' as [|? ? Hb Hr]; subst.
+      constructor; [lia|]. apply IH; [cbn [length] in Hl; lia|exact Hr].
+Qed.
+
+Lemma valid_lt16 nibs : Forall valid_nib nibs -> Forall (fun x => (x < 16)%N) nibs.
+Proof. apply Forall_impl. intros a H. destruct (valid_nib_step a H) as [_ L]. exact L. Qed.
+
+Lemma real_nibbles_valid neg ds l : Forall digit ds -> Forall valid_nib (M_real_nibbles neg ds l).
+Proof.
+  intros Hd. pose proof (digits_valid ds Hd) as Hv.
+  assert (Hs : Forall valid_nib (if neg then [14%N] else [])).
+  { destruct neg; constructor; [right; right; right; right; reflexivity|constructor]. }
+  assert (H0 : valid_nib 0%N) by (left; lia).
+  assert (Ha : valid_nib 10%N) by (right; left; reflexivity).
+  assert (Hb : valid_nib 11%N) by (right; right; left; reflexivity).
+  assert (Hc : valid_nib 12%N) by (right; right; right; left; reflexivity).
+  assert (Hit : forall x, Forall valid_nib (itoa x)).
+  { intros x. destruct (Z.ltb_spec 0 x) as [Hx|Hx].
+    - apply digits_valid. apply itoa_spec. exact Hx.
+    - unfold itoa. cbn [itoa_fuel]. destruct (Z.leb_spec x 0); [constructor|lia]. }
+  destruct (firstn_skipn_digits ds (Z.to_nat l) Hd) as [Hf Hsk].
+  unfold M_real_nibbles.
+  repeat match goal with |- context [if ?c then _ else _] =>
+    match c with neg => fail 1 | _ => destruct c end end;
+  repeat (apply Forall_app; split); try assumption; try (apply digits_valid; assumption);
+  repeat (first [assumption | apply Hit | apply Forall_nil | apply Forall_cons]).
+Qed.
+
+Lemma real_layout_bytes_ok neg ds l : Forall digit ds ->
+  Forall (fun b => (b < 256)%N) (M_real_layout neg ds l).
+Proof.
+  intros Hd. unfold M_real_layout.
+  apply (pack_nibbles_bytes (length (M_real_nibbles neg ds l))); [lia|].
+  apply valid_lt16. apply real_nibbles_valid. exact Hd.
 Qed.
